@@ -14,20 +14,24 @@ Section Main.
 Hypothesis Hcodec : codec_statement.
 Hypothesis Htotal : compile_total_statement.
 Variable ty : N.
+Variable ver : N.
+Variable zg : bool.
+Hypothesis Hver : 1 <= ver <= 3.
 
-Definition cinv (E : store) (b : builder) : Prop := cgood E /\ Cstk (elang E) (b_stack b).
+Definition cinv (E : store) (b : builder) : Prop :=
+  cgood E /\ Cstk (elang E) (b_stack b) /\ Ginv zg b E /\ Rinv E (b_stack b).
 
 Lemma last_opt_snoc {A} (l : list A) x : last_opt (l ++ [x]) = Some x.
-Proof.
+Proof. clear Hver.
   induction l as [|y l IH]; [reflexivity|]. cbn [app].
   destruct (l ++ [x]) eqn:X; [destruct l; discriminate|]. exact IH.
 Qed.
 
 Lemma top_final_one (u : unf) : top_final [u].
-Proof. intros v _. left. reflexivity. Qed.
+Proof. clear Hver. intros v _. left. reflexivity. Qed.
 
 Lemma fcp0_cpl : forall st k bs, shape st k -> fcp0 st bs = cpl k bs.
-Proof.
+Proof. clear Hver.
   induction st as [|u st IH]; intros k bs Hs; [destruct Hs|].
   destruct bs as [|b bs]; [destruct k; reflexivity|]. cbn [fcp0 shape] in *.
   destruct k as [|c k].
@@ -37,12 +41,12 @@ Qed.
 
 (* the empty key *)
 Lemma insert_empty_ok G rem E acc b outo b' r :
-  inv ty G rem E acc b ->
+  inv ver ty G rem E acc b ->
   out_of outo < U64 ->
   lastkey acc = [] ->
   (is_dup acc [] = true -> outo = None) ->
   insert_output b [] outo = (b', r) ->
-  r = Ok tt /\ inv ty G rem E (if is_dup acc [] then acc else ([], out_of outo) :: acc) b' /\
+  r = Ok tt /\ inv ver ty G rem E (if is_dup acc [] then acc else ([], out_of outo) :: acc) b' /\
   b_last b' = b_last b /\ (cinv E b -> cinv E b').
 Proof.
   intros [Hm Hs Htop Hlen Hbud HG Hna Hkb Htrim Htf Hbb] Hout Hk Hdup Hc.
@@ -84,7 +88,8 @@ Proof.
     clear Hc. inversion Hc'; subst b' r; clear Hc'.
     split; [reflexivity|]. split; [|split; [reflexivity|]].
     2:{ unfold cinv, Cstk. cbn [with_stack with_len b_stack Cpost u_node u_last n_trans]. rewrite Hst.
-        cbn [Cpost]. rewrite Hrl, Hrt. intros (A & B & _). split; [exact A|]. split; [|exact I]. intros t []. }
+        cbn [Cpost]. rewrite Hrl, Hrt. intros (A & (B & _) & C & D). split; [exact A|]. split; [split; [|exact I]; intros t []|].
+        split; [exact C|]. unfold Rinv, ftargets in *. cbn [flat_map u_node n_trans] in *. rewrite ?Hrt in D. exact D. }
     inversion Hu as [|? ? Hu1 _]; subst. destruct Hu1 as (U1 & U2 & U3 & U4).
     constructor; cbn [with_stack with_len b_stack b_len lastkey].
     + eapply minv_frame; [..|exact Hm]; reflexivity.
@@ -109,18 +114,18 @@ Proof.
 Qed.
 
 Lemma firstn_app_exact {A} (l1 l2 : list A) n : length l1 = n -> firstn n (l1 ++ l2) = l1.
-Proof. intros <-. rewrite firstn_app, Nat.sub_diag, firstn_all. cbn [firstn]. apply app_nil_r. Qed.
+Proof. clear Hver. intros <-. rewrite firstn_app, Nat.sub_diag, firstn_all. cbn [firstn]. apply app_nil_r. Qed.
 
 (* a non-empty key *)
 Lemma insert_nonempty_ok G rem E acc b b0 bs0 outo b' r :
   let bs := b0 :: bs0 in
-  inv ty G (len bs + rem) E acc b ->
+  inv ver ty G (len bs + rem) E acc b ->
   Forall (fun c => c < 256) bs -> out_of outo < U64 ->
   lex_cmp bs (lastkey acc) <> Lt ->
   (is_dup acc bs = true -> outo = None) ->
   insert_output b bs outo = (b', r) ->
   exists E', r = Ok tt /\
-    inv ty G rem E' (if is_dup acc bs then acc else (bs, out_of outo) :: acc) b' /\
+    inv ver ty G rem E' (if is_dup acc bs then acc else (bs, out_of outo) :: acc) b' /\
     b_last b' = b_last b /\ (cinv E b -> cinv E' b').
 Proof.
   intros bs [Hm Hs Htop Hlen Hbud HG Hna Hkb Htrim Htf Hbb] Hbytes Hout Hcmp Hdup Hc.
@@ -148,7 +153,7 @@ Proof.
     rewrite Hd0.
     destruct Hs as [Hsh Hu HW Hd HL].
     destruct (fcp_ok E bs (b_stack b) k out 0 Hsh Hu HW) as
-      (st & o2 & Hf & S1 & S2 & S3 & S4 & S5 & S6 & S7 & S8 & S9); auto.
+      (st & o2 & Hf & S1 & S2 & S3 & S4 & S5 & S6 & S7 & S8 & S9 & S10); auto.
     fold p in Hf, S7, S9.
     pose proof (shape_length _ _ Hsh) as Hlst0. pose proof (shape_length _ _ S1) as Hlst.
     assert (Hs1 : sinv E st k (rev acc)).
@@ -156,7 +161,7 @@ Proof.
     rewrite Hf in Hc.
     destruct (Nat.eqb_spec p (length bs)) as [X|_]; [contradiction|].
     set (b2 := with_len (with_stack b st) (b_len (with_stack b st) + 1)) in *.
-    assert (Hm2 : minv ty E b2) by (eapply minv_frame; [..|exact Hm]; reflexivity).
+    assert (Hm2 : minv ver ty E b2) by (eapply minv_frame; [..|exact Hm]; reflexivity).
     assert (Htf2 : top_final st).
     { intros u Hu'. destruct (shape_top _ _ S1) as (lo & t & Hst & Ht & Hlo).
       destruct (shape_top _ _ Hsh) as (lo' & t' & Hst' & Ht' & Hlo').
@@ -167,8 +172,8 @@ Proof.
       apply (f_equal (@rev bool)) in S8. rewrite !rev_app_distr in S8. cbn [rev app] in S8.
       inversion S8. congruence. }
     destruct (compile_from b2 p) as [b3 r3] eqn:Hcf.
-    destruct (compile_from_ok Hcodec Htotal ty E b2 k (rev acc) p b3 r3 Hm2 Hs1) as
-      (E' & -> & Hm3 & F1 & F2 & Flen & Fs & Fcase & Ftrim & Fbb & FC); auto.
+    destruct (compile_from_ok Hcodec Htotal ty ver zg Hver E b2 k (rev acc) p b3 r3 Hm2 Hs1) as
+      (E' & -> & Hm3 & F1 & F2 & Flen & Fs & Fcase & Ftrim & Fbb & FC & FGR); auto.
     { cbn [b2 with_len with_stack b_stack]. unfold len, NODE_MAX in *. lia. }
     cbn [b2 with_len with_stack b_stack b_len b_last] in *.
     destruct (skipn_cons_length p bs) as (b1 & r1 & Hsk); [lia|].
@@ -229,29 +234,33 @@ Proof.
       * exact Ftrim.
       * rewrite Hst'eq, app_assoc. apply top_final_suffix.
       * eapply bbytes_frame; [|exact Fbb]. reflexivity.
-    + intros (Hcg & HCs). cbn [with_stack b_stack].
+    + intros (Hcg & HCs & HGi & HRi). cbn [with_stack b_stack].
       destruct (FC o2 Hcg (S9 HCs)) as (Hcg' & HC').
+      assert (HRst : Rinv E st) by (unfold Rinv in *; rewrite S10; exact HRi).
+      destruct (FGR HGi HRst) as (HG' & HR').
       split; [exact Hcg'|]. rewrite Hst'eq. rewrite Hst3, <- Hlenlo in HC'.
       destruct (shape_top _ _ (s_shape _ _ _ _ Fs)) as (lo2 & t2 & Heq2 & Ht2 & Hlo2).
       apply app_inj_tail in Heq2. destruct Heq2 as (<- & <-).
-      eapply add_suffix_C; eauto.
+      split; [eapply add_suffix_C; eauto|]. split; [exact HG'|].
+      rewrite Hst3 in HR'. unfold Rinv in *. cbn [with_stack b_stack]. rewrite app_assoc, (ftargets_app (_ ++ _)), ftargets_suffix, app_nil_r.
+      rewrite ftargets_app in *. exact HR'.
 Qed.
 
 (* ---------- one accepted call ---------- *)
 Lemma lex_cmp_nil_r k : lex_cmp k [] <> Lt.
-Proof. destruct k; cbn; discriminate. Qed.
+Proof. clear Hver. destruct k; cbn; discriminate. Qed.
 
-Lemma inv_with_last G rem E acc b l : inv ty G rem E acc b -> inv ty G rem E acc (with_last b l).
+Lemma inv_with_last G rem E acc b l : inv ver ty G rem E acc b -> inv ver ty G rem E acc (with_last b l).
 Proof.
   intros [Hm Hs Htop Hlen Hbud HG Hna Hkb Htrim Htf Hbb]. constructor; cbn [with_last b_stack b_len]; auto.
   eapply minv_frame; [..|exact Hm]; reflexivity.
 Qed.
 
 Lemma apply_op_ok G rem E acc b o l' :
-  inv ty G (len (op_key o) + rem) E acc b -> last_ok acc b -> op_ok o ->
+  inv ver ty G (len (op_key o) + rem) E acc b -> last_ok acc b -> op_ok o ->
   spec_call (b_last b) o = (l', Ok tt) ->
   exists E' b', apply_op b o = (b', Ok tt) /\
-    inv ty G rem E' (step_acc (b_last b) acc o) b' /\ last_ok (step_acc (b_last b) acc o) b' /\
+    inv ver ty G rem E' (step_acc (b_last b) acc o) b' /\ last_ok (step_acc (b_last b) acc o) b' /\
     b_last b' = l' /\ (cinv E b -> cinv E' b').
 Proof.
   intros Hinv Hlast (Hkb & Hv) Hsc.
@@ -290,11 +299,11 @@ Proof.
   { unfold step_acc. fold k. rewrite Hdupeq, Hout. reflexivity. }
   rewrite Hacc'.
   destruct (insert_output (with_last b (Some k)) k outo) as [b' r] eqn:Hio.
-  assert (Hres : exists E', r = Ok tt /\ inv ty G rem E' (if is_dup acc k then acc else (k, out_of outo) :: acc) b' /\
+  assert (Hres : exists E', r = Ok tt /\ inv ver ty G rem E' (if is_dup acc k then acc else (k, out_of outo) :: acc) b' /\
                             b_last b' = Some k /\ (cinv E b -> cinv E' b')).
   { destruct k as [|b0 bs0] eqn:Hk.
     - assert (Hlk : lastkey acc = []) by (destruct (lastkey acc); [reflexivity|cbn in Hcmp; congruence]).
-      assert (Hinv0 : inv ty G rem E acc (with_last b (Some []))).
+      assert (Hinv0 : inv ver ty G rem E acc (with_last b (Some []))).
       { destruct Hinv1 as [A1 A2 A3 A4 A5 A6 A7 A8 A9 A10 A11]. constructor; auto. }
       destruct (insert_empty_ok G rem E acc _ outo b' r Hinv0) as (Hr & Hi & Hl & HC); auto; [lia|].
       exists E. auto.
@@ -307,10 +316,10 @@ Qed.
 
 (* ---------- the call loop ---------- *)
 Lemma run_extend_ok : forall ops G rem E acc b,
-  inv ty G (key_bytes (map op_key ops) + rem) E acc b -> last_ok acc b -> Forall op_ok ops ->
+  inv ver ty G (key_bytes (map op_key ops) + rem) E acc b -> last_ok acc b -> Forall op_ok ops ->
   Forall (fun r => r = Ok tt) (spec_calls (b_last b) ops) ->
   exists E' acc' b', run_extend b ops = (b', Ok tt) /\
-    inv ty G rem E' acc' b' /\ rev acc' = spec_content (b_last b) ops acc /\
+    inv ver ty G rem E' acc' b' /\ rev acc' = spec_content (b_last b) ops acc /\
     (cinv E b -> cinv E' b').
 Proof.
   induction ops as [|o ops IH]; intros G rem E acc b Hinv Hlast Hok Hcalls.
@@ -318,7 +327,7 @@ Proof.
   - cbn [spec_calls] in Hcalls. destruct (spec_call (b_last b) o) as [l' x] eqn:Hsc.
     inversion Hcalls as [|? ? Hx Hrest]; subst. inversion Hok as [|? ? Ho Hoks]; subst.
     cbn [map key_bytes fold_right] in Hinv.
-    assert (Hinv' : inv ty G (len (op_key o) + (key_bytes (map op_key ops) + rem)) E acc b).
+    assert (Hinv' : inv ver ty G (len (op_key o) + (key_bytes (map op_key ops) + rem)) E acc b).
     { destruct Hinv as [A1 A2 A3 A4 A5 A6 A7 A8 A9 A10 A11]. constructor; auto; unfold key_bytes in *; lia. }
     destruct (apply_op_ok G _ E acc b o l' Hinv' Hlast Ho Hsc) as (E1 & b1 & Hap & Hi1 & Hl1 & Hbl1 & HC1).
     cbn [run_extend]. rewrite Hap. subst l'.
